@@ -1,7 +1,7 @@
 from spec import *
 
 UNIT = Unit(
-    name="feemul",
+    name="feemul", lemma_obs=['lemma_step_bounded'],
     prelude=["core.rs", "raw.rs", "iter.rs", "crypto.rs", "state_abs.rs"],
     lemmas=["sums.rs", "coinsview.rs", "feemul.rs"],
     items=[
